@@ -12,6 +12,11 @@ CHECKS = {
             "Every message validator is evaluated on the complete product of per-field boundary sets (every single bit, every alignment/limit neighbour, 0/1/max; 4.7e7 tuples quick, 1.3e10 thorough) built from raw bytes, and on every request code in [0,4096] and +-64 around each power of two, and compared with an independently written predicate. Validators are pure functions of a few fields whose decision boundaries lie on those values, so the boundary product decides them up to values strictly between lattice points.",
             "Trusted: the reference predicates in vmc/src/model/validators.rs transcribe the statement's rules; padding bytes the specification leaves open are don't-care. Values strictly inside lattice intervals are not enumerated.",
             "DESIGN.md 4/C20"),
+    "C19": ("exploration", "lattice",
+            "exhaustive enumeration of every kernel-backend operation x argument lattice under ioctl/open64 interposition, compared with a gcc-compiled UAPI reference",
+            "Every trait operation of the kernel-vhost, vhost-net, vhost-vsock and vhost-vDPA backends is executed on an intercepted dummy device for the whole argument lattice (queue indexes, 64-bit values, region tables of 0..=257 entries, config buffers of 0..=256 bytes, all IOTLB type x permission pairs in v1 and v2, 3 guest memory layouts, all ring-size/max/log-flag combinations); the captured (request, argument bytes) are compared with numbers, sizes and offsets computed by gcc from <linux/vhost.h>, the value returned with what the scripted kernel wrote back. The operations are single, non-interacting calls, so per-operation exhaustive input enumeration is the right level.",
+            "Trusted: gcc + /usr/include/linux/vhost.h as the UAPI; dummy devices behind the interposer (no real kernel vhost); vm-memory's get_host_address as the translation reference. Implicit struct padding and the unused tail of the IOTLB union are don't-care.",
+            "DESIGN.md 4/C19"),
 }
 
 REASONS_NOT_YET = "check not built yet (construction in progress, see DESIGN.md section 10); not claimed"
